@@ -6,7 +6,7 @@ from checks.skel import Unit, CubeQuery, run_cubes
 
 H = os.path.join(VERIF, 'harness', 'h_path.cpp')
 SRCS = ['src/Path.cpp', 'src/DirectoryVisitor.cpp', 'src/Exception.cpp']
-NAMES = ['a', 'b', 'c c']
+NAMES = ['a', '.b', 'c c']
 
 
 def trees(maxn):
@@ -66,7 +66,7 @@ def plan(tier):
 def run(tier, seed):
     ck = Check('C18', tier, seed)
     units, qs = plan(tier)
-    ck.bounds = {'string lengths': '0..%d bytes each' % (4 if tier == 'quick' else 6), 'trees': '<= %d nodes below the root, depth <= 2, names {a, b, "c c"}' % (2 if tier == 'quick' else 3), 'file sizes': '0..4 bytes',
+    ck.bounds = {'string lengths': '0..%d bytes each' % (4 if tier == 'quick' else 6), 'trees': '<= %d nodes below the root, depth <= 2, names {a, .b, "c c"}' % (2 if tier == 'quick' else 3), 'file sizes': '0..4 bytes',
                  'outside': 'the real kernel/file system (the model is the POSIX contract), symlinks, permissions, longer strings and larger trees; directory names ending in a backslash (not a separator for join on Linux)'}
     ck.assumptions = ['POSIX model rt/rt_fs.c (see C17)', 'model std::string with [basic.string] semantics for find/find_last_of/erase incl. npos arithmetic; model forward_list', 'names are compared as bytes: spaces, dots, non-ASCII need no special case']
     ck.collect_functions([H] + [os.path.join(ck.ws.prepare_repo(), s) for s in SRCS], ['MODE=1'])
